@@ -256,4 +256,5 @@ def run(prog, rep, tier, cfg):
         rep.need('K10', 'System::new:readonly:%s' % site.fn.id.split('::')[-1], okv, 'System::new must receive rt.read_only() (or constant true), got %s' % sendsmod.pretty(at), site.where)
     # ---- error discipline: no Result produced in these crates is silently discarded
     X.no_dropped_results('K14', 'results-not-discarded', ['fil_actor_evm', 'fil_actors_evm_shared'], 'no Result of a call is discarded')
+    X.tolerated_failures('K15', 'tolerated-failures', ['fil_actor_evm', 'fil_actors_evm_shared'], 'tolerated failures are the reviewed ones')
 
